@@ -158,6 +158,10 @@ fn do_validate<'a>(
     // Every file gets its own assertion log and verdict. The collector lives
     // in the environment that all the files of a run share.
     env.borrow_mut().assert_results = build::AssertCollector::new();
+    // The assertions of an imported file belong to every test file that
+    // imports it, not just to the first one of the run. Values cached by the
+    // files tested before would keep them from being evaluated again.
+    env.borrow_mut().val_cache.clear();
     match build_file(file, true, strict, import_paths, env) {
         Ok(b) => {
             if b.assert_results() {
